@@ -77,6 +77,8 @@ structure EventType where
 /-- a class registered in `_PushbuttonEvent._event_classes` -/
 structure PushClass where
   name : String
+  /-- the unqualified class name -/
+  base : String
   info : Nat
   deriving DecidableEq, Repr, Inhabited
 
